@@ -20,7 +20,7 @@ def flat(v):
     return [float(x) for x in (v if isinstance(v, (list, tuple, np.ndarray)) else [v])]
 
 
-def same_ip(a, b, violations, what, shapes_as_1d=False, single=False):
+def same_ip(a, b, violations, what, shapes_as_1d=False, single=False, names_unordered=False):
     """a, b: IndividualParameters"""
     if a._indices != b._indices:
         violations.append(dict(key=f"{what}: identifiers {b._indices} instead of {a._indices} (as strings, in order)"))
@@ -30,7 +30,7 @@ def same_ip(a, b, violations, what, shapes_as_1d=False, single=False):
         return
     for i in a._indices:
         pa, pb = a[i], b[i]
-        if list(pa) != list(pb):
+        if (sorted(pa) != sorted(pb)) if names_unordered else (list(pa) != list(pb)):
             violations.append(dict(key=f"{what}: parameter names {list(pb)} instead of {list(pa)}"))
             return
         for k in pa:
@@ -138,6 +138,18 @@ def standin_conversions(tier, seed):
                             shapes_as_1d=(ext == "csv"), single=kind.startswith("np.float32"))     # single-precision inputs: compared as such
                 except Exception as e:
                     violations.append(dict(key=f"save / load {ext} raises {type(e).__name__} for shapes {[s for _, s in naming]}, values {kind}: {str(e)[:80]}"))
+            # writer options the save method documents (forwarded to json.dump / DataFrame.to_csv) must not change what is read back:
+            # a JSON file written with its keys sorted still lists the individuals in their own order
+            evals += 1
+            path = os.path.join(tmp, "ip_sorted_keys.json")
+            try:
+                with quiet():
+                    ip.save(path, sort_keys=True, indent=None)
+                    back = IndividualParameters.load(path)
+                same_ip(ip, back, violations, f"dict -> json file written with sort_keys=True -> dict ({[n for n, _ in naming]})",
+                        single=kind.startswith("np.float32"), names_unordered=True)     # (the caller asked for sorted keys: the order of the names is theirs)
+            except Exception as e:
+                violations.append(dict(key=f"save(json, sort_keys=True) / load raises {type(e).__name__}: {str(e)[:80]}"))
             if len(samples) < 2:
                 samples.append(dict(ids=ids, naming=str(naming)))
         # refusals
